@@ -37,24 +37,27 @@ _NODE = re.compile(r'^(-?\d+) \[label="((?:[^"\\]|\\.)*)"(.*)$')
 _EDGE = re.compile(r'^(-?\d+) -> (-?\d+) \[label="([^"]*)"')
 
 def load_dot(path):
-    """Parse a TLC `-dump dot,actionlabels` file -> (states {id: {var: value}}, succ {id: [id]}, [initial ids])."""
-    states, succ, inits = {}, {}, []
+    """Parse a TLC `-dump dot,actionlabels` file -> (states {id: {var: value}}, succ {id: [id]}, [initial ids]).
+    Node ids are made canonical (rank of the state's text), so the result does not depend on TLC's fingerprint
+    seed or worker scheduling."""
+    label, edges, init_raw = {}, [], []
     with open(path) as f:
         for line in f:
             m = _EDGE.match(line)
             if m:
-                a, b = m.group(1), m.group(2)
-                lst = succ.setdefault(a, [])
-                if b not in lst:
-                    lst.append(b)
+                edges.append((m.group(1), m.group(2)))
                 continue
             m = _NODE.match(line)
             if m:
-                nid = m.group(1)
-                states[nid] = tlaparse.parse_conj(_dot_unescape(m.group(2)))
+                label[m.group(1)] = m.group(2)
                 if "style = filled" in m.group(3):
-                    inits.append(nid)
-    return states, succ, inits
+                    init_raw.append(m.group(1))
+    rank = {nid: i for i, (nid, _) in enumerate(sorted(label.items(), key=lambda kv: kv[1]))}
+    states = {rank[nid]: tlaparse.parse_conj(_dot_unescape(txt)) for nid, txt in label.items()}
+    succ = {}
+    for a, b in sorted({(rank[a], rank[b]) for a, b in edges}):
+        succ.setdefault(a, []).append(b)
+    return states, succ, sorted(rank[i] for i in init_raw)
 
 def edge_cover(inits, succ, rng, max_steps, max_len=64):
     """Paths (lists of node ids, each starting at an initial state) that together traverse every edge of the graph,
@@ -423,12 +426,14 @@ def _clear_class(a):
 def replay_behaviour(world, steps):
     """Replay one behaviour.  Returns (None | (key, text, failing_index), stats)."""
     world.reset()
-    stats = {"steps": 0, "restarts": 0, "commits": 0, "multikey_restart": 0}
+    stats = {"steps": 0, "restarts": 0, "commits": 0, "multikey_restart": 0, "nt": []}
     for i, st in enumerate(steps):
         act, exp = st["act"], st["exp"]
         name = act["name"]
         err = world.apply(act)
         stats["steps"] += 1
+        if name in ("Restart", "Commit", "Clear", "Expire"):
+            stats["nt"].append(i)
         if err:
             return (f"C22_PutAccepted:{name}", err, i), stats
         got_bc = world.bc()
@@ -477,7 +482,7 @@ def run(ctx):
     dot = os.path.join(ctx.scratch, "bcast-walk")
     check_model(ctx, "MC_Bcast_walk", extra=["-dump", "dot,actionlabels", dot])
     states, succ, inits = load_dot(dot + ".dot")
-    paths, n_edges, n_cov = edge_cover(inits, succ, ctx.rng, max_steps=12000 if quick else 10**9)
+    paths, n_edges, n_cov = edge_cover(inits, succ, ctx.rng, max_steps=6000 if quick else 10**9)
     behaviours = [behaviour_of([states[n] for n in p]) for p in paths]
     # (R2, thorough) large model: seeded random behaviours
     simdir = os.path.join(ctx.scratch, "bcast-sim")
@@ -496,14 +501,21 @@ def run(ctx):
         behaviours.append(steps)
 
     world = World(ctx.scratch)
+    acts = {}
+    for b in behaviours:
+        for st in b:
+            acts[st["act"]["name"]] = acts.get(st["act"]["name"], 0) + 1
+    ctx.coverage["actions_replayed"] = acts
     found = {}
     tot = {"steps": 0, "restarts": 0, "commits": 0, "multikey_restart": 0}
-    distinct = set()
+    distinct, nontrivial = set(), set()
     for steps in behaviours:
         res, stats = replay_behaviour(world, steps)
         for k in tot:
             tot[k] += stats[k]
         distinct.add(json.dumps([s["act"] for s in steps], sort_keys=True))
+        for i in stats["nt"]:
+            nontrivial.add(hash(json.dumps([s["act"] for s in steps[: i + 1]], sort_keys=True)))
         if res:
             key, text, idx = res
             rank = (idx, len(json.dumps([x["act"] for x in steps[: idx + 1]])))
@@ -516,12 +528,13 @@ def run(ctx):
     cov = ctx.coverage
     cov["traces_validated_against_impl"] = len(behaviours)
     cov["evaluations"] = tot["steps"]
-    cov["distinct_nontrivial"] = tot["restarts"]
+    cov["distinct_nontrivial"] = len(nontrivial)
     cov["rule"] = ("behaviours = seeded edge cover of the dumped state graph of MC_Bcast_walk "
                    f"({n_cov}/{n_edges} transitions covered) + {n_sim} `tlc -simulate` traces of the exhaustively checked model, "
                    "each closed by a clean restart; evaluations = replayed steps (store, effective config of 2 tasks x 2 cycles "
-                   "and, after commits, both DB tables compared each step); distinct_nontrivial = restarts compared "
-                   f"({tot['multikey_restart']} of them after a multi-key dictionary put, {tot['commits']} table comparisons)")
+                   "and, after commits, both DB tables compared each step); distinct_nontrivial = distinct histories ending in a "
+                   f"clear / expire / commit / restart step (the steps that exercise a clause beyond a plain put); {tot['restarts']} restarts "
+                   f"compared ({tot['multikey_restart']} after a multi-key dictionary put), {tot['commits']} table comparisons")
     cov["samples"] = [[_fmt_act(s["act"]) for s in b[1:]] for b in behaviours[:: max(1, len(behaviours) // 4)][:4]]
     cov["exhaustive"] = (n_cov == n_edges)
     cov["distinct_behaviours"] = len(distinct)
